@@ -61,6 +61,7 @@ class CFG:
         self._build()
         self._events()
         self._doms()
+        self._subst = self._single_defs()
 
     # ------------------------------------------------------------------ construction
     def _new(self, kind, stmt=None, exprs=(), label=None, of=None):
@@ -262,6 +263,53 @@ class CFG:
                     changed = True
         return dom
 
+    # ------------------------------------------------------------------ locals holding conditions
+    def _single_defs(self):
+        """locals with exactly one definition (their initialiser) and a scalar/bool/iterator type: did -> init expr"""
+        from .facts import walk_stmts, walk_all_exprs, strip_casts
+        cand, killed = {}, set()
+        for st in walk_stmts(self.f['body']):
+            vs = st['vars'] if st['k'] == 'decl' else ([st['var']] if st['k'] == 'if' and st.get('var') else [])
+            for v in vs:
+                if v.get('init') is not None and not v.get('is_ref') and not v.get('static_local'):
+                    cand[v['d']] = v['init']
+        for e in walk_all_exprs(self.f['body']):
+            t = None
+            if e.get('k') == 'assign':
+                t = strip_casts(e['l'])
+            elif e.get('k') == 'un' and e['op'] in ('++', '--', '&'):
+                t = strip_casts(e['e'])
+            elif e.get('k') == 'call' and e.get('obj') is not None and ((e.get('callee') or '').endswith('::operator=') or e.get('op') in ('++', '--', '+=', '-=', '=')):
+                t = strip_casts(e['obj'])
+            if t is not None and t.get('k') == 'ref' and t.get('d') in cand:
+                killed.add(t['d'])
+        return {d: v for d, v in cand.items() if d not in killed}
+
+    def expanded(self, e, depth=0):
+        """copy of condition e in which single-definition bool/scalar locals are replaced by their initialiser"""
+        if not isinstance(e, dict) or depth > 6:
+            return e
+        if e.get('k') == 'ref' and e.get('dk') == 'var' and e.get('d') in self._subst:
+            init = self._subst[e['d']]
+            ct = (e.get('cty') or '').replace('const ', '')
+            from .facts import strip_casts as _sc, strip_conv as _scv
+            i0 = _scv(init)
+            is_lookup = i0 is not None and i0.get('k') == 'call' and (i0.get('callee') or '').split('::')[-1] in ('find', 'begin', 'end', 'cbegin', 'cend', 'lower_bound')
+            is_la = i0 is not None and i0.get('k') == 'call' and (i0.get('callee') or '').split('::')[-1] == 'lookahead'
+            is_const_enum = (e.get('cty') or '').startswith('const ') and ct.endswith('::Type')
+            if ct == 'bool' or ('iterator' in ct.lower() and is_lookup) or is_la or is_const_enum:
+                return self.expanded(init, depth + 1)
+            return e
+        out = {}
+        for k, v in e.items():
+            if isinstance(v, dict):
+                out[k] = self.expanded(v, depth + 1)
+            elif isinstance(v, list):
+                out[k] = [self.expanded(x, depth + 1) if isinstance(x, dict) else ([x[0], self.expanded(x[1], depth + 1)] if isinstance(x, list) and len(x) == 2 and isinstance(x[1], dict) else x) for x in v]
+            else:
+                out[k] = v
+        return out
+
     # ------------------------------------------------------------------ queries
     def ev(self, e):
         """Event of an expression node (by sid)."""
@@ -303,7 +351,7 @@ class CFG:
         for nid in self.dom[ev.node.id]:
             n = self.nodes[nid]
             if n.kind == 'branch' and n.of.exprs:
-                out.append((n.of.exprs[0], n.label, n.of))
+                out.append((self.expanded(n.of.exprs[0]), n.label, n.of))
         return out
 
     def calls(self, pred=None):
